@@ -63,6 +63,12 @@ def gen_sequence(rng, small, nreq):
             m = rng.choice([0, ln, ln + 1, 10**6]) if ln else 5
             toks += req("POST", rng.choice(["/g%d" % m, "/r%d" % m, "/n200"]), body=(ln, seed), declared=False)
             break
+        elif r < 0.97:
+            # framing header combinations whose body kind and connection state must agree
+            hd = rng.choice([[("Transfer-Encoding", "chunked"), ("Content-Length", "0")], [("Content-Length", "0"), ("Transfer-Encoding", "gzip")],
+                             [("Transfer-Encoding", "chunked")], [("Expect", "100-continue"), ("Content-Length", "0")],
+                             [("Transfer-Encoding", "gzip, chunked"), ("Content-Length", "3")]])
+            toks += req(rng.choice(["POST", "GET"]), rng.choice(["/n200", "/e204", "/g100"]), headers=hd)
         else:
             toks.append(hx(rng.choice(["garbage\r\n\r\n", "GET / HTTP/1.0\r\n\r\n", "GET /x HTTP/1.1\r\nbad header\r\n\r\n",
                                         "GET /x HTTP/1.1\r\nContent-Length: 1\r\nContent-Length: 1\r\n\r\n", "GET /x HTT"])))
@@ -76,6 +82,19 @@ def gen(rng, tier):
         cache = rng.choice(["ok", "ok", "ok", "-", "missing"])
         nreq = rng.randint(1, 12)
         cases.append("D %d %s %s" % (small, cache, gen_sequence(rng, small, nreq)))
+    # long pipelines: more than the 8 KiB head buffer in one go, heads straddling the buffer end
+    for k in range(12 if tier == "quick" else 400):
+        small = 100
+        kind = k % 3
+        if kind == 0:
+            n = rng.randint(440, 900)
+            seq = "+".join("+".join(req("GET", "/n200")) for _ in range(n))
+        elif kind == 1:
+            seq = "+".join("+".join(req("POST", "/n200", headers=[("X-Pad", "p" * rng.randint(1, 60))], body=(rng.randint(3990, 4100), k + 1))) for _ in range(3))
+        else:
+            pad = rng.randint(7900, 8100)
+            seq = "+".join(req("GET", "/n200")) * 1 + "+" + "+".join(req("GET", "/n201", headers=[("X-Pad", "q" * pad)])) + "+" + "+".join(req("GET", "/n200"))
+        cases.append("D %d ok %s" % (small if kind != 1 else 5000, seq))
     # full server: delivery schedules and panics
     ns = 40 if tier == "quick" else 2000
     for _ in range(ns):
